@@ -155,34 +155,41 @@ def outerFinish (st : State) (w : Nat) (answered : Bool) : State :=
                       progGate := fun r => if r = x.req then false else st.progGate r }
   st.setW w { x with outer := .exited answered, ctx := some (x.ctx.getD .canceled) }
 
+/-- A further INVOCATION for a live worker: `handlerQueue <- msg` (the loop stays blocked when the
+    queue is full). -/
+def enqueue (cfg : Cfg) (st : State) (w : Nat) (i : Inv) : State :=
+  let st := { st with lastRecv := (updateLastRecvID st.lastRecv (UInt64.ofNat i.req)).1 }
+  let x := st.ws w
+  if x.queue.length < cfg.queueCap then
+    st.setW w { x with queue := x.queue ++ [i], accepted := i :: x.accepted }
+  else { st with pendingSend := some (w, i) }
+
+/-- A new worker for invocation `i` (queue, context, kill switch, progress gate). -/
+def create (st : State) (i : Inv) : State :=
+  let w := st.n
+  let x : Worker := { req := i.req, reg := i.reg, live := true, queue := [i], accepted := [i],
+                      deadline := if i.timeout > 0 then some (st.now + i.timeout.toNat) else none,
+                      progOK := i.recvProgress }
+  let st := { st with lastRecv := (updateLastRecvID st.lastRecv (UInt64.ofNat i.req)).1, n := st.n + 1,
+                      kill := fun r => if r = i.req then some w else st.kill r,
+                      progGate := fun r => if r = i.req then (i.recvProgress || st.progGate r) else st.progGate r }
+  (st.setW w x).emit (.created w i.req i.reg)
+
+/-- The part of `runHandleInvocation` after the handler lookup and the PPT handling succeeded. -/
+def accept (cfg : Cfg) (st : State) (i : Inv) : State :=
+  match findLive st i.reg i.req st.n with
+  | some w => enqueue cfg st w i
+  | none =>
+    if cfg.invGate && !(updateLastRecvID st.lastRecv (UInt64.ofNat i.req)).2 then st.emit (.ignored i.req)
+    else create st i
+
 def recvInvocation (cfg : Cfg) (st : State) (i : Inv) (hasHandler : Bool) : Option State :=
   if st.pendingSend.isSome then none else
   if !hasHandler then some (st.emit (.send (.error tINVOCATION i.req N.ErrInvalidArgument))) else
   match invocationPpt cfg.pptChecked cfg.deser i.details i.args i.kw with
   | .panic site => some { st with crashed := some site }
   | .ok (.errorReply _) => some (st.emit (.send (.error tINVOCATION i.req N.ErrInvalidArgument)))
-  | .ok (.proceed a k) =>
-    let i := { i with args := a, kw := k }
-    let id := UInt64.ofNat i.req
-    match findLive st i.reg i.req st.n with
-    | some w =>
-      let st := { st with lastRecv := (updateLastRecvID st.lastRecv id).1 }
-      let x := st.ws w
-      if x.queue.length < cfg.queueCap then
-        some (st.setW w { x with queue := x.queue ++ [i], accepted := i :: x.accepted })
-      else some { st with pendingSend := some (w, i) }
-    | none =>
-      let p := updateLastRecvID st.lastRecv id
-      if cfg.invGate && !p.2 then some (st.emit (.ignored i.req))
-      else
-        let w := st.n
-        let x : Worker := { req := i.req, reg := i.reg, live := true, queue := [i], accepted := [i],
-                            deadline := if i.timeout > 0 then some (st.now + i.timeout.toNat) else none,
-                            progOK := i.recvProgress }
-        let st := { st with lastRecv := p.1, n := st.n + 1,
-                            kill := fun r => if r = i.req then some w else st.kill r,
-                            progGate := fun r => if r = i.req then (i.recvProgress || st.progGate r) else st.progGate r }
-        some ((st.setW w x).emit (.created w i.req i.reg))
+  | .ok (.proceed a k) => some (accept cfg st { i with args := a, kw := k })
 
 def step (cfg : Cfg) (st : State) (ev : Ev) : Option State :=
   if st.crashed.isSome then none else
